@@ -72,7 +72,7 @@ def gen_case(rng, big=False, tie=False):
     # composition: every species present, otherwise arbitrary
     types = list(range(1, K + 1)) + [rng.randint(1, K) if rng.random() < 0.7 else rng.choice([1, K]) for _ in range(N - K)]
     rng.shuffle(types)
-    config = "line" if tie else rng.choice(["gas", "gas", "lattice", "cluster"])
+    config = "line" if tie else rng.choice(["gas", "gas", "lattice", "cluster", "grid"])
     frames = []
     shear = kind == "tri" and T >= 2 and rng.random() < 0.6    # same box lengths, another tilt in every frame (a sheared cell)
     H0 = H
@@ -92,6 +92,13 @@ def gen_case(rng, big=False, tie=False):
             y = [str(Fraction(rng.randint(0, 16), 4)) for _ in range(d)]
             step = Fraction(delta) / 2
             pos = [[str(float(step * rng.randint(0, int(Fraction(L[0]) / step) * 2)))] + [str(float(Fraction(v))) for v in y[1:]] for _ in range(N)]
+        elif config == "grid":
+            # distinct integer grid sites, handed over as an INTEGER array (lattice-gas / pixel coordinates): the separations are then
+            # integer arrays too, and whatever is written back into them is truncated
+            sites = set()
+            while len(sites) < N:
+                sites.add(tuple(rng.randint(0, max(1, int(Lf[k]))) for k in range(d)))
+            pos = [[str(v) for v in s_] for s_ in sorted(sites, key=lambda _: rng.random())]
         elif config == "gas":
             pos = [[dec(rng, -0.5 * Lf[k], 1.5 * Lf[k]) for k in range(d)] for _ in range(N)]
         elif config == "lattice":
@@ -133,6 +140,8 @@ def real_call(c, outdir=None):
         L = np.array([float(x) for x in c["box"]])
         H = np.array([[float(x) for x in row] for row in f["H"]])
         pos = np.array([[float(x) for x in row] for row in f["pos"]])
+        if all(x.lstrip("-").isdigit() for row in f["pos"] for x in row):
+            pos = pos.astype(np.int64)              # integer coordinates stay an integer array
         bounds = np.column_stack((np.zeros(d), L))
         snaps.append(SingleSnapshot(timestep=t, nparticle=c["N"], particle_type=np.array(f["types"], dtype=int), positions=pos,
                                     boxlength=L, boxbounds=bounds, realbounds=None, hmatrix=H))
